@@ -80,6 +80,25 @@ CHECKS.update({
     ),
 })
 
+VS = ("Trusted: the scheduler shim verif/vsched (channel/select/WaitGroup/Mutex semantics per the Go spec, vector-clock happens-before) and the generic "
+      "rewriter tools/vrewrite that binds it to the CURRENT sources at check time; sequentially consistent interleavings at synchronisation granularity; "
+      "virtual time (only the host function slow() costs time; timers fire when nothing else is enabled).")
+CHECKS.update({
+    "C06": dict(
+        level="model_checking", engine="vsched",
+        text="The goroutine code of /repo and of the pinned iterator dependency is rewritten mechanically onto a controlled scheduler; for each of ~2850 "
+             "(thorough: ~6000, W in {2,3}) pipeline scenarios (pre-stage x parallel map/accept x post-stage x terminal, sizes around the switch to parallel "
+             "execution at item 12, failing elements in the sequential and the parallel phase, merge with stack-using operands, multiUse consumer pairs, nested "
+             "parallel stages) ALL interleavings are explored on the real code (stateless DFS, history-key pruning, no preemption bound) and every terminal "
+             "state is checked: outcome = strictly sequential reference, no happens-before data race on the value stacks, no deadlock, no panic on a "
+             "library goroutine.",
+        note=VS + " List lengths beyond 17 and more than 3 elements in the parallel phase are not explored (each further element repeats the same worker cycle). "
+             "A multiUse consumer that never iterates its list yields the pinned 'iterator timed out' error (repository test) and is excluded from the outcome oracle.",
+        technique="stateless model checking of the implementation under a controlled scheduler: exhaustive interleaving exploration with vector-clock race detection",
+        design_ref="DESIGN.md §3.3, §5 C06",
+    ),
+})
+
 NOT_YET = "check not built yet in this session (planned, see DESIGN.md §9); not claimed until its machinery exists"
 
 def main():
